@@ -10,6 +10,7 @@ from __future__ import annotations
 
 import io
 import itertools
+import json
 import os
 import re
 
@@ -553,7 +554,51 @@ def line_length_options(ctx):
                 if a != b:
                     ctx.violation("linelen %s-zero-not-shortest %s" % (opt, dn), "%s: %s=0 (documented: shortest possible lines) is wrapped differently from %s=1:\n%s" % (
                         dn, opt, opt, "\n".join(isolate.diff_trees(a, b, 1))), {"kind": "linelen", "desc": dn})
-    ctx.part("line_length_options", descriptions=list(descs), combinations=combos, pairs_compared=n)
+    # a line length given on an inner scope (a namespace, a nested namespace, a class, one function) is that scope's business:
+    # the files of the scopes around it are wrapped as without it
+    import yaml as _y
+    based = _y.safe_load(LONG_LIB)
+    inner = [{"decl": "void reset()"}, {"decl": "int generation(int a_long_argument_name_for_the_generation, double another_long_argument_name)"}]
+    based["declarations"] = list(based["declarations"]) + [
+        {"decl": "namespace detail", "declarations": list(inner) + [{"decl": "namespace deeper", "declarations": [{"decl": "void again()"}]}]},
+        {"decl": "class Holder", "declarations": [{"decl": "Holder()"}, {"decl": "int held(int a_long_argument_name_for_the_holder) const"}]},
+        {"decl": "void lonely(int a_long_argument_name_for_the_lonely_function)"}]
+    njobs, nmeta = [(os.path.join(wd, "scope-base"), _y.safe_dump(based, sort_keys=False), [])], [("base", None, None)]
+    for where, path in (("namespace", (-3,)), ("nested namespace", (-3, -1)), ("class", (-2,)), ("function", (-1,))):
+        for opt, val in (("F_line_length", 160), ("F_line_length", 30), ("C_line_length", 200), ("C_line_length", 30)):
+            d2 = json.loads(json.dumps(based))
+            node = d2
+            for k in path:
+                node = node["declarations"][k]
+            node["options"] = {opt: val}
+            njobs.append((os.path.join(wd, "scope-%d" % len(njobs)), _y.safe_dump(d2, sort_keys=False), []))
+            nmeta.append((where, opt, val))
+    nres = isolate.pmap(gen_with, njobs, ctx.workers)
+    if nres[0][0] == "ok":
+        bt = nres[0][1]
+        owner = {"namespace": ("detail",), "nested namespace": ("deeper",), "class": ("Holder", "holder"), "function": ()}
+        for (where, opt, val), (st, tree) in list(zip(nmeta, nres))[1:]:
+            n += 1
+            if st != "ok":
+                ctx.violation("linelen scope generation %s %s" % (where, opt), "generation fails with %s=%d on a %s" % (opt, val, where), {"kind": "linelen"})
+                continue
+            for fn in sorted(bt):
+                if fn.endswith((".json", ".yaml")) or any(tok in fn for tok in owner[where]):
+                    continue  # the files of the scope that carries the option (and of scopes inside it)
+                if tree.get(fn) != bt[fn] and where != "function":
+                    a, b = bt[fn].decode().split("\n"), (tree.get(fn) or b"").decode().split("\n")
+                    k = [i for i, (x, z) in enumerate(zip(a + ["<end>"], b + ["<end>"])) if x != z][0]
+                    ctx.violation("linelen inner-scope-option %s %s" % (where, opt), "%s=%d on a %s changes %s, a file of the scope around it: line %d %r -> %r" % (
+                        opt, val, where, fn, k + 1, a[k][:120], b[k][:120] if k < len(b) else None), {"kind": "linelen", "where": where, "opt": opt, "value": val})
+                    break
+                if where == "function" and tree.get(fn) is not None and isf(fn) == (opt == "C_line_length") and tree[fn] != bt[fn]:
+                    # a Fortran option on one function leaves every C file alone, and the other way round
+                    ctx.violation("linelen inner-scope-option %s %s" % (where, opt), "%s=%d on one function changes %s, a file of the other language family" % (opt, val, fn),
+                                  {"kind": "linelen", "where": where, "opt": opt, "value": val})
+                    break
+    else:
+        ctx.violation("linelen scope generation base", "generation of the scoped long-name library fails: %s" % (nres[0][1],), {"kind": "linelen"})
+    ctx.part("line_length_options", descriptions=list(descs), combinations=combos, pairs_compared=n, inner_scope_cases=len(njobs) - 1)
     ctx.count(states=len(res), transitions=len(res) + n, validated=len(res) + n)
 
 
